@@ -766,6 +766,194 @@ def rule_g1_scc(prog, r1):
         r1.ok()
 
 
+# -- R-G-5: reading the adjacency map inserts nothing ---------------------------
+
+_ADJ_WRITERS = ('add', 'update', 'discard', 'remove', 'pop', 'clear',
+                'setdefault', 'popitem', 'difference_update',
+                'intersection_update', 'symmetric_difference_update',
+                '__setitem__', '__delitem__')
+
+
+def _adj_names(fnode, adj):
+    """local names that are plain copies of self.<adj>"""
+    import ast
+    me = fnode.args.args[0].arg if fnode.args.args else None
+    names = set()
+    for n in ast.walk(fnode):
+        if isinstance(n, ast.Assign) and len(n.targets) == 1 and \
+                isinstance(n.targets[0], ast.Name) and \
+                isinstance(n.value, ast.Attribute) and \
+                n.value.attr == adj and \
+                isinstance(n.value.value, ast.Name) and \
+                n.value.value.id == me:
+            names.add(n.targets[0].id)
+    return me, names
+
+
+def _is_adj(e, me, names, adj):
+    import ast
+    return (isinstance(e, ast.Attribute) and e.attr == adj and
+            isinstance(e.value, ast.Name) and e.value.id == me) or \
+        (isinstance(e, ast.Name) and e.id in names)
+
+
+def _unguarded_adj_reads(fnode, adj):
+    """(writes_adjacency, [(subscript node, verdict)]): verdict 'safe' (key
+    bound by iterating the graph's own nodes, or dominated by a membership
+    test on the same key), 'unguarded' (no membership test on the map in the
+    whole function) or 'unknown'"""
+    import ast
+    me, names = _adj_names(fnode, adj)
+    writes = False
+    reads = []
+    tests = []          # key texts tested for membership in the map
+    bound = set()       # names bound by iterating the map / self.method()
+    for n in ast.walk(fnode):
+        if isinstance(n, (ast.Subscript, ast.Attribute)) and \
+                isinstance(n.ctx, (ast.Store, ast.Del)):
+            b = n.value if isinstance(n, ast.Subscript) else n
+            if _is_adj(b, me, names, adj):
+                writes = True
+        if isinstance(n, ast.Call) and isinstance(n.func, ast.Attribute) and \
+                n.func.attr in _ADJ_WRITERS:
+            b = n.func.value
+            if _is_adj(b, me, names, adj) or (
+                    isinstance(b, ast.Subscript) and
+                    _is_adj(b.value, me, names, adj)):
+                writes = True
+        if isinstance(n, ast.Compare) and len(n.ops) == 1 and \
+                isinstance(n.ops[0], (ast.In, ast.NotIn)) and \
+                _is_adj(n.comparators[0], me, names, adj):
+            tests.append(ast.unparse(n.left))
+        if isinstance(n, (ast.For, ast.comprehension)):
+            it = n.iter
+            src = it.func.value if isinstance(it, ast.Call) and \
+                isinstance(it.func, ast.Attribute) and \
+                it.func.attr in ('keys', 'items') else it
+            own_call = isinstance(it, ast.Call) and \
+                isinstance(it.func, ast.Attribute) and \
+                isinstance(it.func.value, ast.Name) and \
+                it.func.value.id == me and not it.args
+            if _is_adj(src, me, names, adj) or own_call:
+                for t in ast.walk(n.target):
+                    if isinstance(t, ast.Name):
+                        bound.add(t.id)
+    for n in ast.walk(fnode):
+        if isinstance(n, ast.Subscript) and isinstance(n.ctx, ast.Load) and \
+                _is_adj(n.value, me, names, adj):
+            k = n.slice
+            kt = ast.unparse(k)
+            if isinstance(k, ast.Name) and k.id in bound:
+                reads.append((n, 'safe'))
+            elif kt in tests:
+                reads.append((n, 'safe'))
+            elif not tests:
+                reads.append((n, 'unguarded'))
+            else:
+                reads.append((n, 'unknown'))
+    return writes, reads
+
+
+def rule_g5(prog, adj):
+    r = RuleResult('R-G-5', 'reading the adjacency map never inserts a key: '
+                   'the map is a plain dict, or no method that otherwise '
+                   'leaves the graph alone subscripts it with a key that '
+                   'may be missing')
+    import ast
+    dg = prog.cls('graph.DiGraph')
+    classes = sorted([c for c in prog.classes.values()
+                      if c.is_subclass_of(dg)], key=lambda c: c.qn)
+    auto = []
+    n_assign = 0
+    for c in classes:
+        for nm, fn in sorted(c.attrs.items()):
+            if not isinstance(fn, ast.FunctionDef) or not fn.args.args:
+                continue
+            me = fn.args.args[0].arg
+            for n in ast.walk(fn):
+                if isinstance(n, ast.Assign) and any(
+                        isinstance(t, ast.Attribute) and t.attr == adj and
+                        isinstance(t.value, ast.Name) and t.value.id == me
+                        for t in n.targets):
+                    n_assign += 1
+                    v = n.value
+                    kind = 'other'
+                    if isinstance(v, (ast.Dict, ast.DictComp)):
+                        kind = 'dict'
+                    elif isinstance(v, ast.Call):
+                        x = prog.eval_static(c.module, v.func)
+                        nmx = getattr(x, 'name', None)
+                        if isinstance(v.func, ast.Name) and \
+                                v.func.id == 'dict' and x is not None and \
+                                nmx in (None, 'dict'):
+                            kind = 'dict'
+                        elif nmx in ('collections.defaultdict',
+                                     'defaultdict'):
+                            kind = 'defaultdict'
+                    r.inst(assigned_in='%s.%s' % (c.short(), nm),
+                           value=ast.unparse(v)[:60], kind=kind)
+                    if kind == 'defaultdict':
+                        auto.append((c, nm, n))
+                    r.ok()
+    floor('R-G-5', 'assignments of the adjacency field', n_assign, 1)
+    # matcher self-test
+    pos = ast.parse('def q(self, xs):\n'
+                    '    m = self.%s\n'
+                    '    return [m[x] for x in xs]\n' % adj).body[0]
+    neg = ast.parse('def q(self, x):\n'
+                    '    if x not in self.%s:\n'
+                    '        raise RuntimeError(x)\n'
+                    '    return [self.%s[x]] + [self.%s[v] for v in '
+                    'self.nodes()]\n' % (adj, adj, adj)).body[0]
+    pw, pr = _unguarded_adj_reads(pos, adj)
+    nw, nr = _unguarded_adj_reads(neg, adj)
+    if pw or [v for (_, v) in pr] != ['unguarded'] or nw or \
+            [v for (_, v) in nr] != ['safe', 'safe']:
+        raise Inconclusive('R-G-5', 'matcher self-test failed', '')
+    r.notes.append('matcher self-test: positive example reported, negative '
+                   'example silent')
+    if not auto:
+        return r
+    unknown = None
+    for c in classes:
+        for nm, fn in sorted(c.attrs.items()):
+            if not isinstance(fn, ast.FunctionDef) or not fn.args.args:
+                continue
+            writes, reads = _unguarded_adj_reads(fn, adj)
+            if writes or nm == '__init__':
+                continue
+            for (n, verdict) in reads:
+                r.inst(method='%s.%s' % (c.short(), nm),
+                       read=ast.unparse(n), verdict=verdict)
+                if verdict == 'safe':
+                    r.ok()
+                elif verdict == 'unguarded':
+                    f = prog.method(c, nm, own=True)
+                    r.fail(Finding(
+                        PROP, 'R-G-5', '%s:%d' % (c.module.relpath, n.lineno),
+                        f.short(), 'auto-insert:%s' % nm,
+                        'the adjacency map is a defaultdict (%s.%s) and %s '
+                        'reads %s with a key that need not be a node and '
+                        'without a membership test: the read inserts the key, '
+                        'so an operation that must leave G unchanged adds '
+                        'nodes to it (and answers instead of raising)' % (
+                            auto[0][0].short(), auto[0][1], f.short(),
+                            ast.unparse(n)),
+                        expected='G unchanged / RuntimeError for a non-node',
+                        found='key inserted'), witness=ast.unparse(n))
+                elif unknown is None:
+                    unknown = (c, nm, n)
+    if unknown is not None and not r.findings:
+        c, nm, n = unknown
+        e = Inconclusive('R-G-5', 'adjacency map is a defaultdict; whether '
+                         '%s is only read with existing keys in %s.%s is not '
+                         'decided' % (ast.unparse(n), c.short(), nm),
+                         '%s:%d' % (c.module.relpath, n.lineno))
+        e.partial = r
+        raise e
+    return r
+
+
 def run(prog, tier, seed):
     adj = adjacency_field(prog)
     T = Attempts()
@@ -774,6 +962,7 @@ def run(prog, tier, seed):
     if r1 is not None:
         T(rule_g1_scc, prog, r1)
     r3 = T(rule_g3, prog, adj)
+    r5 = T(rule_g5, prog, adj)
     expl = ('DiGraph is analysed at the level of its adjacency dictionary '
             '(field discovered from nodes()). R-G-0: accessors, constructor '
             '(unrolled symbolic instances with |V|,|E| <= 2) and mutators '
@@ -814,5 +1003,5 @@ def run(prog, tier, seed):
         return r
     dep = dep + adopt(T.results(T(_kripke_clone, prog)), PROP,
                       'clone() of the Kripke subclass')
-    return T.results(r0, r1, r2, r3) + dep, expl, assumptions, \
+    return T.results(r0, r1, r2, r3, r5) + dep, expl, assumptions, \
         T.extra({'adjacency_field': adj})
